@@ -29,7 +29,13 @@ def run(ctx):
                 cfg = rng.choice([0, 1, 6]) | (rng.choice([1, 4]) << 8) | (th << 12) | (to << 16) | (bs << 20)
                 mode = rng.choice([0, 3, 3, 2]) if len(d) < 50000 else rng.choice([0, 3])
                 lines.append('enc 1 %d %d %d - %s' % (cfg, mode, rng.randrange(1 << 20), d.hex() or '-')); meta.append((di, bs, cfg & 0xFFF, 'run'))
-        # early lzma_end at a random call
+        # re-initialisation on the same lzma_stream after a partial use (cfg bit 29): same bytes as a fresh encoder, no hang
+        for bs in (1, 8):
+            for rep in range(6 if ctx.quick() else 40):
+                th = rng.randrange(0, 4); to = rng.choice([0, 1, 2])
+                cfg = rng.choice([0, 1, 6]) | (rng.choice([1, 4]) << 8) | (th << 12) | (to << 16) | (bs << 20) | (1 << 29)
+                mode = rng.choice([0, 3, 3, 2]) if len(d) < 50000 else rng.choice([0, 3])
+                lines.append('enc 1 %d %d %d - %s' % (cfg, mode, rng.randrange(1 << 20), d.hex() or '-')); meta.append((di, bs, cfg & 0xFFF, 'run'))
         for rep in range(8 if ctx.quick() else 60):
             cfg = 1 | (1 << 8) | (rng.randrange(1, 6) << 12) | (rng.choice([0, 1]) << 16) | (rng.choice([1, 4]) << 20) | (1 << 28)
             lines.append('enc 1 %d %d %d - %s' % (cfg, rng.choice([1, 2, 3]), rng.randrange(1 << 20), d.hex() or '-')); meta.append((di, 0, 0, 'abort'))
